@@ -39,6 +39,10 @@ fn main() {
         "C04" => drive(props::nat::NatProp::new(props::nat::Which::C04), rest),
         "C05" => drive(props::nat::NatProp::new(props::nat::Which::C05), rest),
         "C06" => drive(props::nat::NatProp::new(props::nat::Which::C06), rest),
+        "C07" => drive(props::c07::C07, rest),
+        "C08" => drive(props::c08::C08, rest),
+        "C09" => drive(props::c09::C09::new(), rest),
+        "C10" => drive(props::c10::C10, rest),
         "C19" => drive(props::c19::C19::new(), rest),
         "forms" => axverif::props::nat::forms_census(arg(rest, "--per-form").and_then(|s| s.parse().ok()).unwrap_or(400)),
         other => {
